@@ -19,7 +19,7 @@ THEOREMS = [
     'C10_index_format_nonvacuous', 'C10_no_index_collision_raises', 'C10_iso_nonvacuous',
 ]
 
-FORMATS = ['{prefix}{j}', '{prefix}{i}', 'a{i}', '{i}', 'x{j}{i}', 'v{j}', '{prefix}_{i}{{}}', '{prefix}']
+FORMATS = ['{prefix}{j}', '{prefix}{i}', 'a{i}', '{i}', 'x{j}{i}', 'v{j}', '{prefix}_{i}{{}}', '{prefix}', '{j}']
 CONCEPTS = ['x', 'y', 'dog', 'dog', 'bark-01', 'a', 'b', 'v1', 'd2', 'é', 'Ωmega', '日本', '1abc', '"quoted"', 'İx', 'ǅz',
             '_', '--', '123', 'Été', 'ÀB', 'ß', 'µ', 'x~1', '"a b"', 'X']
 CONSTANTS = ['x', 'y', '-', '"s t"', '1', '2.5', 'dog', 'a', 'b', 'c', 'd', 'd2', 'x0', 'a0', 'v', 'v2', '0', '_', '"a"', 'a~1',
@@ -265,6 +265,29 @@ def run(chk):
             except KeyError:
                 outcome = ('err', 2)
             sigma = expected_names(pieces, node)
+            if outcome[0] == 'ok' and chk.rng.random() < .25:
+                # history: a query (nodes()) BEFORE an in-place rearrange must not change what the later relabelling
+                # does (an answer cached across the in-place change would), and relabelling twice must work
+                try:
+                    ta, tb = Tree(copy.deepcopy(node)), Tree(copy.deepcopy(node))
+                    ta.nodes()
+                    try:
+                        layout.interpret(ta, model)
+                    except Exception:       # noqa: malformed alignment text in a constant; only the side effect matters
+                        pass
+                    layout.rearrange(ta, key=model.canonical_order)
+                    layout.rearrange(tb, key=model.canonical_order)
+                    timed(ta.reset_variables, fmt, seconds=2)
+                    timed(tb.reset_variables, fmt, seconds=2)
+                    if ta.node != tb.node:
+                        chk.fail('history', f'reset_variables({fmt!r}) after rearrange depends on an earlier nodes()/interpret call', case)
+                    timed(ta.reset_variables, '{prefix}{i}', seconds=2)
+                    chk.stat('history-checked')
+                except Timeout:
+                    chk.fail('hang', 'relabelling after rearrange did not return', case)
+                except Exception as e:      # noqa
+                    if not isinstance(e, ValueError):
+                        chk.fail('history', f'{type(e).__name__} when relabelling a tree a second time / after rearrange', case)
             if len(chk.samples) < 4 and nnodes >= 3 and outcome[0] == 'ok' and any('~' in str(x) for x in constants_of(node, {}) ):
                 chk.sample(dict(case, result=outcome[1]))
             # ---------------- oracle ----------------
